@@ -395,7 +395,7 @@ Lemma check_record_halt c s name typ data tok :
 Proof.
   unfold check_record. intros H. inv_binds H. injection H as <-.
   split; [reflexivity|]. split; [unfold T_A, T_CNAME, T_TXT, T_AAAA in *; lia|]. split; [reflexivity|].
-  split; [lia|]. exists x1. split; [assumption|]. eapply check_admin_halt; eassumption.
+  split; [lia|]. eexists. split; [first [eassumption|reflexivity]|]. eapply check_admin_halt; eassumption.
 Qed.
 
 Lemma to_byte_small z b : to_byte z = Halt b -> (b < 128)%N -> z = Z.of_N b.
@@ -414,13 +414,45 @@ Lemma nexec_records_cases c s o s' v ns :
   (exists name typ id data, o = SetRecord name typ id data) \/
   (exists name typ, o = DeleteRecords name typ).
 Proof.
-  intros H. destruct o; unfold NNS.nexec in H.
-  - (* Register *) right; left. cbv zeta in H. inv_binds H.
+  intros H. destruct o; unfold NNS.nexec in H; cbv zeta in H;
+    try (right; right; left; eexists _, _, _; reflexivity);
+    try (right; right; right; left; eexists _, _, _, _; reflexivity);
+    try (right; right; right; right; eexists _, _; reflexivity).
+  - (* Register *) inv_binds H.
     destruct (get_ns hash s name) as [ns0|].
     + destruct (now c <? ns_exp ns0).
-      * admit.
-      * inv_binds H. injection H as <- _ _. apply save_domain_halt in E8 as [tok [data E8]]. exists tok, name, data. exact E8.
-    + inv_binds H. injection H as <- _ _. apply save_domain_halt in E9 as [tok [data E9]]. exists tok, name, data. exact E9.
-Admitted.
+      * injection H as <- _ _. left. reflexivity.
+      * inv_binds H. injection H as <- _ _. right; left.
+        match goal with E : save_domain _ _ _ _ _ _ _ _ _ _ _ = Halt _ |- _ => apply save_domain_halt in E as [tok [data E]]; exists tok, name, data; exact E end.
+    + inv_binds H. injection H as <- _ _. right; left.
+      match goal with E : save_domain _ _ _ _ _ _ _ _ _ _ _ = Halt _ |- _ => apply save_domain_halt in E as [tok [data E]]; exists tok, name, data; exact E end.
+  - (* RegisterTLD *) inv_binds H. injection H as <- _ _. right; left.
+    match goal with E : save_domain _ _ _ _ _ _ _ _ _ _ _ = Halt _ |- _ => apply save_domain_halt in E as [tok [data E]]; exists tok, name, data; exact E end.
+  - (* Transfer *) inv_binds H. left.
+    match type of H with (if ?b then _ else _) = _ => destruct b end; [injection H as <- _ _; reflexivity|].
+    inv_binds H. injection H as <- _ _.
+    match goal with |- records (if ?b then _ else _) = _ => destruct b end; reflexivity.
+  - (* Renew *) inv_binds H. injection H as <- _ _. left. reflexivity.
+  - (* SetAdmin *) inv_binds H. injection H as <- _ _. left. reflexivity.
+  - (* UpdateSOA *) inv_binds H. injection H as <- _ _. right; left.
+    match goal with E : put_soa _ _ _ _ _ _ _ _ _ _ = Halt _ |- _ => apply put_soa_halt in E as [tok [_ ->]]; exists tok, name; eexists; reflexivity end.
+  - (* SetPrice *) inv_binds H. injection H as <- _ _. left. reflexivity.
+  - (* IsAvailable *) inv_binds H. left.
+    destruct (roots s !! List.last (split_dot name) []).
+    + match type of H with (if ?b then _ else _) = _ => destruct b end; [injection H as <- _ _; reflexivity|].
+      inv_binds H. injection H as <- _ _; reflexivity.
+    + match type of H with (if ?b then _ else _) = _ => destruct b end; [discriminate H|]. injection H as <- _ _; reflexivity.
+  - inv_binds H. injection H as <- _ _. left. reflexivity.
+  - inv_binds H. injection H as <- _ _. left. reflexivity.
+  - inv_binds H. injection H as <- _ _. left. reflexivity.
+  - inv_binds H. injection H as <- _ _. left. reflexivity.
+  - inv_binds H. injection H as <- _ _. left. reflexivity.
+  - inv_binds H. injection H as <- _ _. left. reflexivity.
+  - inv_binds H. injection H as <- _ _. left. reflexivity.
+  - inv_binds H. injection H as <- _ _. left. reflexivity.
+  - inv_binds H. injection H as <- _ _. left. reflexivity.
+  - inv_binds H. injection H as <- _ _. left. reflexivity.
+  - inv_binds H. injection H as <- _ _. left. reflexivity.
+Qed.
 
 End Records.
